@@ -729,6 +729,23 @@ def synzero(ctx):
         tail = psts[-1]
         ok = over_out and okupd and okinit and len(other_sets) == len(all_sets) and tail[0] == "expr" and is_var(tail[1], FLAG)
     obs.append(Ob(r, "pee-or", ok, "primitive_element_evaluation returns true iff some evaluated syndrome is non-zero (OR over every entry of `out`)", site=T.span_str(pe["span"]), detail=det))
+    # the evaluation itself: out[k] = sum_i c_rev[i] * alpha^(i*(k+1)), i.e. the word evaluated at alpha^1 .. alpha^len.
+    # Structure: running terms from all coefficients (reversed); in every iteration over `out` they are scaled by the
+    # powers 1, alpha, alpha^2, .. BEFORE the sum is taken; the sum is over all terms.
+    okev = False
+    detev = None
+    CPAR = pe["params"][0]["pat"]["name"].split("#")[0] if pe["params"] and pe["params"][0].get("pat", {}).get("k") == "Bind" else None
+    gl = [st for st in psts if st[0] == "let" and st[2] and T.sx_calls(st[3], "Iterator::collect") and CPAR and any(is_var(x, CPAR) for x in T.sx_walk(st[3]))]
+    if len(gl) == 1 and len(loops) == 1 and OUT:
+        g = gl[0][1].split("#")[0]
+        src_ok = bool(T.sx_calls(gl[0][3], "Iterator::rev")) and not any(T.sx_calls(gl[0][3], "Iterator::" + q) for q in ("skip", "take", "filter", "step_by"))
+        body = loops[0][3]
+        k_scale = scale_stmt(f, body, g)
+        sums = [k for k, st in enumerate(body) for e in T.stmt_exprs(st) for x in T.sx_calls(e, "Iterator::sum")
+                if any(is_var(y, g) for y in T.sx_walk(x)) and not any(T.sx_calls(x, "Iterator::" + q) for q in ("skip", "take", "filter", "step_by"))]
+        detev = {"terms": T.sx_show(gl[0][3], 160), "scale@": k_scale, "sum@": sums}
+        okev = src_ok and k_scale is not None and len(sums) == 1 and k_scale < sums[0] and not any(st[0] in ("continue", "break") for st in T.stmt_walk(body))
+    obs.append(Ob(r, "pee-points", okev, "primitive_element_evaluation evaluates the word at alpha^1, alpha^2, ..: all coefficients (highest first) as running terms, scaled by 1, alpha, alpha^2, .. before each sum, every term summed", site=T.span_str(pe["span"]), detail=detev))
     # decode(): Ok only after every block returned Ok
     dsts, _ = T.fn_stmts(f, DEC)
     need(dsts is not None, r, DEC)
@@ -995,6 +1012,29 @@ def gather_scatter(ctx):
 CHIEN = "errorcode::decoding::chien_search"
 
 
+def scale_stmt(f, stl, var):
+    """index of the top-level statement of `stl` that multiplies every entry of `var` by its power of the primitive
+    element - `for (g, a) in var.iter_mut().zip(GF::primitive_powers()) { *g *= a }`, or a call of a private helper whose
+    whole body is that loop; None if there is not exactly one"""
+    def is_loop(st, v):
+        return st[0] == "for" and any(is_var(x, v) for x in T.sx_walk(st[2])) and bool(T.sx_calls(st[2], "GF::primitive_powers")) \
+            and bool(T.sx_calls(st[2], "iter_mut")) and bool(T.sx_calls(st[2], "Iterator::zip")) \
+            and not any(T.sx_calls(st[2], "Iterator::" + q) for q in ("skip", "take", "filter", "step_by", "rev")) \
+            and len(st[3]) == 1 and st[3][0][0] == "expr" and st[3][0][1][0] == "call" and st[3][0][1][1].endswith("mul_assign")
+    hits = []
+    for k, st in enumerate(stl):
+        if is_loop(st, var):
+            hits.append(k)
+        elif st[0] == "expr" and st[1][0] == "call" and st[1][1].startswith("errorcode::") and len(st[1][2]) == 1 and any(is_var(x, var) for x in T.sx_walk(st[1][2][0])):
+            hn = next((n for n in f.thir if T.canon(n) == st[1][1]), None)
+            if hn and f.thir[hn]["params"] and f.thir[hn]["params"][0].get("pat", {}).get("k") == "Bind":
+                hs = T.stmts(f.thir[hn]["body"], {"__noinline__": True})
+                hp = f.thir[hn]["params"][0]["pat"]["name"].split("#")[0]
+                if len(hs) == 1 and is_loop(hs[0], hp):
+                    hits.append(k)
+    return hits[0] if len(hits) == 1 else None
+
+
 def root_cover(ctx):
     """ROOT-COVER: chien_search tries every non-zero field element.  The error locator's roots are found by exhaustive
     evaluation; a root that is never tried makes decode_gen report Malfunction for a correctable word (an error at the
@@ -1053,20 +1093,7 @@ def root_cover(ctx):
                 okt = True
     obs.append(Ob(r, "root-test", okt, "every exponent i whose evaluation sums to zero is recorded as the root primitive_power(i)", detail=det))
     # the scaling of the running terms: a top-level statement of the loop body, over all of gamma
-    def scale_loop(stl, var):
-        sc = [st for st in stl if st[0] == "for" and any(is_var(x, var) for x in T.sx_walk(st[2])) and T.sx_calls(st[2], "GF::primitive_powers")]
-        return len(sc) == 1 and not any(T.sx_calls(sc[0][2], "Iterator::" + q) for q in ("skip", "take", "filter", "step_by", "rev")) \
-            and len(sc[0][3]) == 1 and sc[0][3][0][0] == "expr" and sc[0][3][0][1][0] == "call" and sc[0][3][0][1][1].endswith("mul_assign")
-    oks = scale_loop(body, gname)
-    if not oks:
-        # the scaling may live in a private helper called, as a statement of the loop body, with the running terms
-        for st in body:
-            if st[0] == "expr" and st[1][0] == "call" and st[1][1].startswith("errorcode::") and len(st[1][2]) == 1 and any(is_var(x, gname) for x in T.sx_walk(st[1][2][0])):
-                hn = next((n for n in f.thir if T.canon(n) == st[1][1]), None)
-                if hn:
-                    hs = T.stmts(f.thir[hn]["body"], {"__noinline__": True})
-                    hp = f.thir[hn]["params"][0]["pat"]["name"].split("#")[0]
-                    oks = oks or (scale_loop(hs, hp) and len(hs) == 1)
+    oks = scale_stmt(f, body, gname) is not None
     obs.append(Ob(r, "advance", oks, "after every test each running term is multiplied by its power of the primitive element (all coefficients, every iteration)"))
     obs += floor(obs, r, 5, "root search obligations")
     return obs
